@@ -309,8 +309,8 @@ theorem uniRedeem_inv (e : Env) (s : State) (pos : PosKey) (toUser : Bool) (h : 
     Inv (uniRedeem NumCtx.exact e s pos toUser).1.st ∧ 0 ≤ (uniRedeem NumCtx.exact e s pos toUser).2.1 ∧
       0 ≤ (uniRedeem NumCtx.exact e s pos toUser).2.2 := by
   unfold uniRedeem
-  by_cases ho : e.uniOpen = true
-  · simp only [ho, Bool.not_true, Bool.false_eq_true, if_false]
+  by_cases ho : (toUser && !e.uniOpen) = false
+  · simp only [ho, Bool.false_eq_true, if_false]
     cases hp : AList.get? s.positions pos with
     | none => exact ⟨h, le_refl 0, le_refl 0⟩
     | some p =>
@@ -361,7 +361,8 @@ theorem uniRedeem_inv (e : Env) (s : State) (pos : PosKey) (toUser : Bool) (h : 
                 simp only []
                 refine ⟨?_, hf0, hf1⟩
                 exact ⟨h4.1, h4.2.1, h4.2.2.erase pos⟩
-  · simp only [ho, Bool.not_false, if_true]
+  · have ho' : (toUser && !e.uniOpen) = true := by simpa using ho
+    simp only [ho', if_true]
     exact ⟨h, le_refl 0, le_refl 0⟩
 
 
